@@ -341,10 +341,12 @@ TCorrupt ==
      /\ Chk("corrupt.panic", ~Panicked(e.res) /\ ~Panicked(e.close) /\ ~Panicked(e.second.open) /\ ~Panicked(e.verify) /\ ~Panicked(e.timeline)
                                /\ (Has(e, "doctor") => ~Panicked(e.doctor.first) /\ ~Panicked(e.doctor.open) /\ ~Panicked(e.doctor.verify))
                                /\ (Has(e, "ro") => ~Panicked(e.ro.open) /\ ~Panicked(e.ro.verify)))
-     /\ (e.res.ok => Chk("corrupt.served", TableEqOrErr(tab, e.obs)))
-     /\ (Has(e, "ro") /\ e.ro.open.ok => Chk("corrupt.served.ro", TableEqOrErr(frames, e.ro.obs) \/ TableEqOrErr(tab, e.ro.obs)))
+     \* a re-sealed edit (checksums recomputed by the editor) is an adversarial file, not a corruption: C22 (no panic, no hang)
+     \* applies to it, C20 (detected or served unchanged) does not - nothing in the file can tell it from a legitimate one
+     /\ ((e.res.ok /\ ~e.resealed) => Chk("corrupt.served", TableEqOrErr(tab, e.obs)))
+     /\ (Has(e, "ro") /\ e.ro.open.ok /\ ~e.resealed => Chk("corrupt.served.ro", TableEqOrErr(frames, e.ro.obs) \/ TableEqOrErr(tab, e.ro.obs)))
      \* verify(deep) of the untouched corrupted copy: Passed must imply that no read returns different data
-     /\ (Has(e, "ro") /\ e.ro.verify.ok /\ e.ro.verify.val = "Passed" /\ e.ro.open.ok =>
+     /\ (Has(e, "ro") /\ e.ro.verify.ok /\ e.ro.verify.val = "Passed" /\ e.ro.open.ok /\ ~e.resealed =>
             Chk("corrupt.verify", TableEqOrErr(frames, e.ro.obs) \/ TableEqOrErr(tab, e.ro.obs)))
 
 TraceStep == \/ TReset \/ TCreate \/ TRefused \/ TSidecar \/ TCommit \/ TOpen \/ TOpenRO \/ TClose \/ TAbandon \/ TLegacy
